@@ -68,6 +68,10 @@ def gen_case(rng):
             elif r < 0.36:
                 ver += 1
                 ops.append(["edef", ver])                                    # (re)define the exec-built function
+            elif r < 0.40:
+                ops.append(["pcall", "f", "cur", rng.randint(1, 2)])          # call through a pickle round trip of the wrapper
+            elif r < 0.43:
+                ops.append(["readonly", rng.random() < 0.6])                     # fault: the store refuses writes / deletions
             else:
                 kind = rng.choice(KINDS)
                 if only_newest or not defined_here[:-1] or rng.random() < 0.6:
@@ -85,7 +89,11 @@ def gen_case(rng):
                 else:
                     ver += 1; seen.append(ver)
                     ops.append(["swap", "f", ver])
-                ops.append(["call", "f", "cur", rng.choice([x, x, 3 - x])])
+                if rng.random() < 0.3:
+                    ops.append(["readonly", True])
+                ops.append([rng.choice(["call", "call", "pcall"]), "f", "cur", rng.choice([x, x, 3 - x])])
+                if rng.random() < 0.5:
+                    ops.append(["call", "f", "cur", x])
         sessions.append(ops)
     return {"sessions": sessions}
 
@@ -118,6 +126,7 @@ def session(root, ops, si=0):
     live = {}        # (kind, version|'cur') -> [version, cached, raw function]
     out = []
     edefs = []
+    ro = {"on": False, "ever": False, "saved": None, "patch": None}
 
     def register(v):
         raw = {"f": mod.f, "g": mod.outer(), "l": mod.lam}
@@ -125,7 +134,17 @@ def session(root, ops, si=0):
             ent = [v, mem.cache(fn), fn]
             live[(k, v)] = ent
             live[(k, "cur")] = ent
+    def set_ro(flag):
+        import joblib._store_backends as sb
+        if flag and ro["patch"]:
+            (sb.FileSystemStoreBackend._open_item, sb.FileSystemStoreBackend._move_item, sb.shutil, sb.mkdirp, sb.rm_subdirs) = ro["patch"]
+        elif not flag and ro["saved"]:
+            (sb.FileSystemStoreBackend._open_item, sb.FileSystemStoreBackend._move_item, sb.shutil, sb.mkdirp, sb.rm_subdirs) = ro["saved"]
     for i, op in enumerate(ops):
+        if op[0] in ("define", "load", "edef", "swap") and ro["on"]:
+            set_ro(False)          # (re)definitions construct wrappers: construction is not what the fault is about
+        elif ro["on"]:
+            set_ro(True)
         if op[0] == "define":
             _write(root, op[1], op[2])
             if mod is None:
@@ -162,7 +181,36 @@ def session(root, ops, si=0):
             live[("e", op[1])] = ent
             live[("e", "cur")] = ent
             edefs.append(ns)
-        elif op[0] == "call":
+        elif op[0] == "readonly":
+            import joblib._store_backends as sb, joblib.disk as jd, types as _t, shutil as _sh, errno as _errno
+            if op[1] and not ro["on"]:
+                ro["on"] = True
+                cache_root = os.path.join(root, "cache")
+
+                def ro_open(f, mode="r", *a, **k):
+                    if any(c in mode for c in "wax+") and str(f).startswith(cache_root):
+                        raise OSError(_errno.EROFS, "Read-only file system", str(f))
+                    return open(f, mode, *a, **k)
+
+                def ro_fail(*a, **k):
+                    raise OSError(_errno.EROFS, "Read-only file system")
+
+                def ro_rmtree(path_, ignore_errors=False, onerror=None, **k):
+                    if not ignore_errors:
+                        raise OSError(_errno.EROFS, "Read-only file system", str(path_))
+                _d = sb.FileSystemStoreBackend.__dict__
+                ro["saved"] = (_d["_open_item"], _d["_move_item"], sb.shutil, sb.mkdirp, sb.rm_subdirs)
+                sb.FileSystemStoreBackend._open_item = staticmethod(ro_open)
+                sb.FileSystemStoreBackend._move_item = staticmethod(ro_fail)
+                sb.shutil = _t.SimpleNamespace(rmtree=ro_rmtree)
+                sb.mkdirp = lambda d: None if os.path.isdir(d) else ro_fail()
+                sb.rm_subdirs = ro_fail
+                _d = sb.FileSystemStoreBackend.__dict__
+                ro["patch"] = (_d["_open_item"], _d["_move_item"], sb.shutil, sb.mkdirp, sb.rm_subdirs)
+            elif not op[1] and ro["on"]:
+                ro["on"] = False
+                set_ro(False)
+        elif op[0] in ("call", "pcall"):
             ent = live.get((op[1], op[2]))
             if ent is None:
                 continue
@@ -170,11 +218,16 @@ def session(root, ops, si=0):
                 continue
             n0 = len(mod.CALLS) + sum(len(getattr(sys.modules.get(m), "CALLS", ())) for m in list(sys.modules) if m.startswith("vm_swap"))
             try:
-                r = ent[1](op[3])
+                fcall = ent[1]
+                if op[0] == "pcall":
+                    import pickle
+                    fcall = pickle.loads(pickle.dumps(ent[1]))       # what dispatching the wrapper to a worker does
+                r = fcall(op[3])
             except BaseException as e:  # noqa
                 r = ("EXC", type(e).__name__, str(e)[:100])
             n1 = len(mod.CALLS) + sum(len(getattr(sys.modules.get(m), "CALLS", ())) for m in list(sys.modules) if m.startswith("vm_swap"))
-            out.append((i, op[1], ent[0], op[3], r, n1 - n0, op[2] != "cur" and ent is not live.get((op[1], "cur"))))
+            out.append((i, op[1], ent[0], op[3], r, n1 - n0, op[2] != "cur" and ent is not live.get((op[1], "cur")), ro["on"] or ro["ever"]))
+            ro["ever"] = ro["ever"] or ro["on"]
     return out
 
 
@@ -185,6 +238,7 @@ def run_case(case):
         verdict = None
         cache = {k: {"ver": None, "keys": set()} for k in KINDS}    # model: stored version + live keys per function
         calls_older = False
+        ro_hist = [False]
         stats = {"version_changes_then_call": 0, "restarts": 0, "reloads": 0, "older_calls": 0}
         changed = {k: False for k in KINDS}
         for si, ops in enumerate(case["sessions"]):
@@ -193,7 +247,8 @@ def run_case(case):
                 return {"verdict": None, "harness_error": "session %d: %s %s" % (si, kind, str(res)[:500])}
             stats["restarts"] += 1 if si else 0
             stats["reloads"] += sum(1 for o in ops[1:] if o[0] == "define")
-            for (i, k, ver, x, r, executed, older) in res:
+            for (i, k, ver, x, r, executed, older, ro_seen) in res:
+                ro_hist[0] = ro_hist[0] or ro_seen
                 hs.update(("%s%s%d" % (k, "o" if older else "n", executed)).encode())
                 h.update(repr((k, ver, x, r, executed)).encode())
                 if older:
@@ -216,7 +271,7 @@ def run_case(case):
                 elif tuple(r) != want:
                     verdict = {"class": "value_of_other_version", "detail": "session %d op %d: definition v%s of %s called with %s returned %s "
                                "(computed by other source code)" % (si, i, ver, k, x, r), "sig": dict(sig, what="value_of_other_version")}
-                elif executed != exp_exec and not calls_older and k != "e":      # (code identity of exec-built functions is a
+                elif executed != exp_exec and not calls_older and k != "e" and not ro_hist[0]:      # (code identity of exec-built functions is a
                     # hash that is documented as fragile across sessions: only their values are judged)
                     verdict = {"class": "cache_not_kept" if executed > exp_exec else "stale_hit",
                                "detail": "session %d op %d: %s(v%s)(%s) executed %d times, expected %d" % (si, i, k, ver, x, executed, exp_exec),
